@@ -550,6 +550,11 @@ def gen_types():
     T['int22'] = array(array(I, 2), 2)
     T['deep'] = record('struct', 'deep', [('m', array(record('struct', 'deep.1', [('p', P, None), ('q', array(S, 2), None)]), 2), None), ('t', I, None)])
     T['us'] = record('struct', 'us', [('u', T['un'], None), ('k', I, None)])
+    # the first named member is not at offset 0: unnamed bit-fields come first
+    T['lead'] = record('struct', 'lead', [(None, S, 16), ('g', I, None), ('c', C, None)])
+    T['lead2'] = record('struct', 'lead2', [(None, U, 5), ('a', U, 3), ('b', I, None)])
+    T['leadin'] = record('struct', 'leadin', [('x', I, None), ('in', T['lead'], None), ('y', I, None)])
+    T['leadA'] = array(T['lead'], 2)
     return T
 
 
